@@ -311,7 +311,8 @@ def _check(plan, ctx):
                 new = [f"h{j}" for j in range(s["a"] % len(names))]     # fewer names than columns: the rest keep theirs
             else:
                 new = [x if j % 2 else f"p{j}" for j, x in enumerate(names)]
-            seen = set()                          # names are unique within a call (dict semantics otherwise)
+            # names are unique within a call, incl. the names kept by a shorter list (dict semantics otherwise)
+            seen = set(names[len(new):]) if len(new) < len(names) else set()
             for j, x in enumerate(new):
                 while new[j] in seen:
                     new[j] = new[j] + "_"
